@@ -1,5 +1,423 @@
-//! C05 - monitor not written yet.
+//! C05 - glob and plain patterns: whole-name match, right dispatch, inert
+//! fast-reject.
 
-use crate::fw::Cx;
+use crate::corpus;
+use crate::fw::{CaseResult, Cx, Ev, Tier};
+use crate::oracle::pattern::{self as opat, GTok, GlobParse};
+use crate::rng::{hash_strs, Rng};
+use pkgsrc::{Dewey, Pattern};
 
-pub fn run(_cx: &mut Cx) {}
+const LIT: [char; 30] = [
+    'a', 'b', 'c', 'f', 'o', 'p', 'x', 'y', 'z', 'A', 'B', 'F', 'Z', '0', '1', '2', '9', '-', '-', '.', '_',
+    '+', 'é', 'ß', '€', '/', ':', '~', ' ', ',',
+];
+
+#[derive(Clone, Debug)]
+enum Tok {
+    Lit(char),
+    Star,
+    Any,
+    Set(bool, Vec<(char, char)>),
+    CloseBracket,
+}
+
+fn gen_set(r: &mut Rng) -> Tok {
+    let neg = r.chance(1, 3);
+    let mut items = vec![];
+    for _ in 0..r.range(1, 3) {
+        match r.below(5) {
+            0 => items.push(('0', '9')),
+            1 => items.push(('a', 'z')),
+            2 => items.push(('A', 'F')),
+            3 => {
+                let a = (b'a' + r.below(20) as u8) as char;
+                let b = ((a as u8) + r.below(5) as u8) as char;
+                items.push((a, b));
+            }
+            _ => {
+                let c = *r.pick(&['a', 'b', 'x', '0', '1', '.', '_', 'Z', 'é']);
+                items.push((c, c));
+            }
+        }
+    }
+    Tok::Set(neg, items)
+}
+
+fn gen_tokens(r: &mut Rng, glob: bool) -> Vec<Tok> {
+    let n = match r.below(8) {
+        0 => 1,
+        1 => 2,
+        _ => r.range(2, 6),
+    };
+    let mut t = vec![];
+    for _ in 0..n {
+        let k = if glob { r.below(12) } else { 0 };
+        t.push(match k {
+            0..=6 => Tok::Lit(*r.pick(&LIT)),
+            7 | 8 => Tok::Star,
+            9 => Tok::Any,
+            10 => gen_set(r),
+            _ => {
+                if r.chance(1, 4) {
+                    Tok::CloseBracket
+                } else {
+                    gen_set(r)
+                }
+            }
+        });
+    }
+    // no adjacent stars ("**" is outside the subset)
+    let mut out: Vec<Tok> = vec![];
+    for x in t {
+        if matches!(x, Tok::Star) && matches!(out.last(), Some(Tok::Star)) {
+            continue;
+        }
+        out.push(x);
+    }
+    out
+}
+
+fn render(t: &[Tok]) -> String {
+    let mut s = String::new();
+    for x in t {
+        match x {
+            Tok::Lit(c) => s.push(*c),
+            Tok::Star => s.push('*'),
+            Tok::Any => s.push('?'),
+            Tok::CloseBracket => s.push(']'),
+            Tok::Set(neg, items) => {
+                s.push('[');
+                if *neg {
+                    s.push('!');
+                }
+                for (a, b) in items {
+                    if a == b {
+                        s.push(*a);
+                    } else {
+                        s.push(*a);
+                        s.push('-');
+                        s.push(*b);
+                    }
+                }
+                s.push(']');
+            }
+        }
+    }
+    s
+}
+
+fn any_char(r: &mut Rng) -> char {
+    *r.pick(&['a', 'b', 'q', 'Z', '0', '5', '-', '.', 'é', '€', 'x'])
+}
+
+/// A name from the pattern's language.
+fn sample(r: &mut Rng, t: &[Tok]) -> String {
+    let mut s = String::new();
+    for x in t {
+        match x {
+            Tok::Lit(c) => s.push(*c),
+            Tok::CloseBracket => s.push(']'),
+            Tok::Any => s.push(any_char(r)),
+            Tok::Star => {
+                for _ in 0..r.below(4) {
+                    s.push(any_char(r));
+                }
+            }
+            Tok::Set(neg, items) => {
+                if *neg {
+                    // try a few characters outside the set
+                    let mut c = '#';
+                    for _ in 0..8 {
+                        let k = any_char(r);
+                        if !items.iter().any(|(a, b)| *a <= k && k <= *b) {
+                            c = k;
+                            break;
+                        }
+                    }
+                    s.push(c);
+                } else {
+                    let (a, b) = *r.pick(items);
+                    let span = (b as u32 - a as u32) as usize;
+                    s.push(char::from_u32(a as u32 + r.below(span + 1) as u32).unwrap_or(a));
+                }
+            }
+        }
+    }
+    s
+}
+
+fn flip(c: char) -> char {
+    if c.is_ascii_lowercase() {
+        c.to_ascii_uppercase()
+    } else if c.is_ascii_uppercase() {
+        c.to_ascii_lowercase()
+    } else if c == 'é' {
+        'É'
+    } else {
+        'q'
+    }
+}
+
+/// Mutations aimed at where the shortcut looks (positions 0, 1) and at
+/// whole-name matching (prefix/suffix/substring confusion).
+fn mutations(r: &mut Rng, name: &str) -> Vec<(String, &'static str)> {
+    let c: Vec<char> = name.chars().collect();
+    let mut out: Vec<(String, &'static str)> = vec![];
+    let put = |v: Vec<char>, tag: &'static str, out: &mut Vec<(String, &'static str)>| {
+        out.push((v.into_iter().collect(), tag));
+    };
+    if !c.is_empty() {
+        let mut v = c.clone();
+        v[0] = flip(v[0]);
+        put(v, "pos0", &mut out);
+        let mut v = c.clone();
+        v[0] = any_char(r);
+        put(v, "pos0", &mut out);
+        put(c[1..].to_vec(), "drop-first", &mut out);
+        put(c[..c.len() - 1].to_vec(), "drop-last", &mut out);
+        let mut v = c.clone();
+        let l = v.len() - 1;
+        v[l] = flip(v[l]);
+        put(v, "last", &mut out);
+    }
+    if c.len() >= 2 {
+        let mut v = c.clone();
+        v[1] = flip(v[1]);
+        put(v, "pos1", &mut out);
+        let mut v = c.clone();
+        v[1] = any_char(r);
+        put(v, "pos1", &mut out);
+        let mut v = c.clone();
+        v.swap(0, 1);
+        put(v, "swap01", &mut out);
+        let i = r.below(c.len());
+        let mut v = c.clone();
+        v.remove(i);
+        put(v, "drop-one", &mut out);
+    }
+    let mut v = c.clone();
+    v.push(any_char(r));
+    put(v, "append", &mut out);
+    let mut v = c.clone();
+    v.insert(0, any_char(r));
+    put(v, "prepend", &mut out);
+    put(c.iter().map(|x| flip(*x)).collect(), "case-all", &mut out);
+    put(c.iter().take(1).cloned().collect(), "len1", &mut out);
+    put(vec![], "empty", &mut out);
+    out
+}
+
+fn simple_char(c: char) -> bool {
+    c.is_ascii_alphanumeric() || c == '-'
+}
+
+fn check_glob_or_plain(ev: &mut Ev, p: &str, names: &[(String, &'static str)]) -> CaseResult {
+    let is_glob = opat::has_glob_meta(p);
+    let got = Pattern::new(p);
+    ev.eval();
+    let pc: Vec<char> = p.chars().collect();
+    let fast = pc.len() >= 2 && simple_char(pc[0]) && simple_char(pc[1]);
+    if !is_glob {
+        ev.count("dispatch/plain");
+        let pat = got.map_err(|e| format!("Pattern::new({p:?}) failed on a plain string: {e}"))?;
+        for (n, tag) in names {
+            let g = pat.matches(n);
+            ev.eval();
+            ev.count(&format!("plain/{tag}/{}", g));
+            if g != (n == p) {
+                return Err(format!("plain pattern {p:?} on {n:?} ({tag}): observed {g}, expected {}", n == p).into());
+            }
+        }
+        if fast {
+            ev.count("fastpath-eligible/plain");
+        }
+        ev.nontrivial(hash_strs(&[p.as_bytes(), b"plain"]));
+        return Ok(());
+    }
+    match opat::parse_glob(p) {
+        GlobParse::OutOfSubset => {
+            ev.count("dispatch/glob-out-of-subset-skipped");
+            Ok(())
+        }
+        GlobParse::Unclosed => {
+            ev.count("dispatch/glob-unclosed");
+            match got {
+                Err(pkgsrc::PatternError::Glob(_)) => Ok(()),
+                Err(e) => Err(format!("Pattern::new({p:?}): unclosed '[' reported as {e:?}, expected a glob error").into()),
+                Ok(_) => Err(format!("Pattern::new({p:?}) accepted an unclosed '['").into()),
+            }
+        }
+        GlobParse::Ok(toks) => {
+            ev.count("dispatch/glob");
+            let pat = got.map_err(|e| format!("Pattern::new({p:?}) rejected a well-formed glob: {e}"))?;
+            // independent partner without any fast path
+            let partner = glob::Pattern::new(p).map_err(|e| format!("harness: glob crate rejects in-subset pattern {p:?}: {e}"))?;
+            if fast {
+                ev.count("fastpath-eligible/glob");
+            }
+            for (n, tag) in names {
+                let nc: Vec<char> = n.chars().collect();
+                if nc.first() == Some(&'.') {
+                    continue; // leading '.' is outside the stated subset
+                }
+                let want = opat::glob_match(&toks, &nc);
+                let g = pat.matches(n);
+                ev.evals(2);
+                ev.count(&format!("glob/{tag}/{}", want));
+                if partner.matches(n) != want {
+                    return Err(format!("harness: reference matcher and glob crate disagree on {p:?} / {n:?} (reference {want})").into());
+                }
+                if g != want {
+                    return Err(format!("glob {p:?} on {n:?} ({tag}): observed {g}, shell-glob semantics say {want}").into());
+                }
+            }
+            let _ = toks.iter().filter(|t| matches!(t, GTok::Star)).count();
+            ev.nontrivial(hash_strs(&[p.as_bytes(), b"glob"]));
+            Ok(())
+        }
+    }
+}
+
+/// Fast-reject inertness for comparison patterns: partner = Dewey::matches,
+/// which has no shortcut.
+fn check_dewey_fast(ev: &mut Ev, p: &str, names: &[(String, &'static str)]) -> CaseResult {
+    let pat = Pattern::new(p).map_err(|e| format!("Pattern::new({p:?}) failed: {e}"))?;
+    let dew = Dewey::new(p).map_err(|e| format!("Dewey::new({p:?}) failed: {e}"))?;
+    ev.count("dispatch/dewey");
+    for (n, tag) in names {
+        let (a, b) = (pat.matches(n), dew.matches(n));
+        ev.eval();
+        ev.count(&format!("dewey/{tag}/{b}"));
+        if a != b {
+            return Err(format!("comparison pattern {p:?} on {n:?} ({tag}): Pattern says {a}, shortcut-free Dewey says {b}").into());
+        }
+    }
+    Ok(())
+}
+
+/// Fast-reject inertness for alternations: partner = union of expansions.
+fn check_alt_fast(ev: &mut Ev, p: &str, names: &[(String, &'static str)]) -> CaseResult {
+    let pat = Pattern::new(p).map_err(|e| format!("Pattern::new({p:?}) failed: {e}"))?;
+    let exps: Vec<Pattern> = opat::expand(p).iter().filter_map(|e| Pattern::new(e).ok()).collect();
+    ev.count("dispatch/alternate");
+    for (n, tag) in names {
+        let a = pat.matches(n);
+        let b = exps.iter().any(|e| e.matches(n));
+        ev.eval();
+        ev.count(&format!("alternate/{tag}/{b}"));
+        if a != b {
+            return Err(format!("alternation {p:?} on {n:?} ({tag}): observed {a}, union of expansions {b}").into());
+        }
+    }
+    Ok(())
+}
+
+pub fn run(cx: &mut Cx) {
+    cx.default_budget();
+    for k in [
+        "dispatch/plain", "dispatch/glob", "dispatch/glob-unclosed", "dispatch/dewey", "dispatch/alternate",
+        "glob/lang/true", "glob/pos0/false", "glob/pos1/false", "glob/append/false", "glob/prepend/false",
+        "glob/drop-last/false", "glob/empty/false", "glob/len1/false", "plain/lang/true", "plain/pos0/false",
+        "plain/pos1/false", "plain/case-all/false", "fastpath-eligible/glob", "fastpath-eligible/plain",
+        "dewey/pos0/false", "dewey/pos1/false", "dewey/lang/true", "alternate/pos0/false", "alternate/lang/true",
+    ] {
+        cx.ev.require(k);
+    }
+    let n = cx.per_shard(60, 5_000, 100_000, 1_200_000);
+    let mut r = cx.stream("tokens");
+    for _ in 0..n {
+        let glob = r.chance(3, 4);
+        let toks = gen_tokens(&mut r, glob);
+        let mut p = render(&toks);
+        // occasionally break a bracket to get the malformed-glob class
+        if glob && r.chance(1, 25) {
+            if let Some(i) = p.rfind(']') {
+                p.truncate(i);
+            }
+        }
+        if p.contains(|c| matches!(c, '{' | '}' | '<' | '>')) {
+            continue;
+        }
+        let mut names: Vec<(String, &'static str)> = vec![];
+        for _ in 0..2 {
+            let nm = sample(&mut r, &toks);
+            names.extend(mutations(&mut r, &nm));
+            names.push((nm, "lang"));
+        }
+        cx.check(
+            || format!("pattern {p:?} x {} names, e.g. {:?}", names.len(), names.iter().rev().take(4).map(|n| &n.0).collect::<Vec<_>>()),
+            |ev| check_glob_or_plain(ev, &p, &names),
+        );
+    }
+
+    // Fast-reject inertness for the other two kinds.
+    let n = cx.per_shard(20, 1_000, 20_000, 200_000);
+    let mut r = cx.stream("fastpath-other-kinds");
+    for _ in 0..n {
+        let base: String = (0..r.range(1, 4)).map(|_| *r.pick(&['a', 'b', 'p', 'y', '3', '-', 'Z', 'é', '.'])).collect();
+        let ver = format!("{}.{}", r.below(3), r.below(3));
+        let good = format!("{base}-{ver}");
+        if r.chance(1, 2) {
+            let p = format!("{base}{}{}", r.pick(&[">=", ">", "<=", "<"]), r.below(3));
+            let mut names = mutations(&mut r, &good);
+            names.push((good, "lang"));
+            cx.check(|| format!("comparison pattern {p:?} vs Dewey on {} names", names.len()), |ev| check_dewey_fast(ev, &p, &names));
+        } else {
+            let other: String = (0..r.range(0, 3)).map(|_| *r.pick(&['a', 'b', 'q', '1', '-'])).collect();
+            let p = match r.below(4) {
+                0 => format!("{{{base},{other}}}-[0-9]*"),
+                1 => format!("{base}{{{other},}}-[0-9]*"),
+                2 => {
+                    let c: Vec<char> = base.chars().collect();
+                    format!("{}{{{},{other}}}-{ver}", c[0], c[1..].iter().collect::<String>())
+                }
+                _ => format!("{base}-{ver}{{,nb[0-9]*}}"),
+            };
+            if p.contains("{}") {
+                continue;
+            }
+            let mut names = mutations(&mut r, &good);
+            names.push((format!("{good}nb1"), "lang"));
+            names.push((good, "lang"));
+            cx.check(|| format!("alternation {p:?} vs expansions on {} names", names.len()), |ev| check_alt_fast(ev, &p, &names));
+        }
+    }
+
+    // Corpus: real glob patterns against real names.
+    if cx.tier != Tier::Mini {
+        let pats: Vec<String> = corpus::patterns()
+            .into_iter()
+            .filter(|p| opat::has_glob_meta(p) && !p.contains(|c| matches!(c, '{' | '}' | '<' | '>')))
+            .collect();
+        let mut names = corpus::names();
+        names.sort();
+        let step = cx.pick_tier(64u64, 16, 4, 1);
+        let mut r = cx.stream("corpus");
+        for (i, p) in pats.iter().enumerate() {
+            let i = i as u64;
+            if i % step != 0 || !cx.mine(i / step) {
+                continue;
+            }
+            let key: String = p.chars().take_while(|c| !matches!(c, '*' | '?' | '[' | ']')).collect();
+            let key2: String = key.chars().take(2).collect();
+            let lo = names.partition_point(|n| n.as_str() < key2.as_str());
+            let mut cand: Vec<(String, &'static str)> = names[lo..]
+                .iter()
+                .take_while(|n| n.starts_with(&key2))
+                .filter(|n| n.starts_with(&key) || r.chance(1, 20))
+                .take(25)
+                .map(|n| (n.clone(), "corpus"))
+                .collect();
+            for _ in 0..3 {
+                cand.push((r.pick(&names).clone(), "corpus"));
+            }
+            cx.check(
+                || format!("corpus glob {p:?} x {} names", cand.len()),
+                |ev| {
+                    ev.count("workload/corpus");
+                    check_glob_or_plain(ev, p, &cand)
+                },
+            );
+        }
+    }
+}
